@@ -51,6 +51,10 @@ func genPlan(seed uint64, tier string) *sim.Plan {
 		rounds = r.Range(4, 30)
 	}
 	for i := 0; i < rounds; i++ {
+		if r.Bool(0.12) {
+			// a peer with a fast clock wins a round: the next generator's clock is behind its previous block
+			p.Steps = append(p.Steps, sim.Step{Op: "ahead", A: r.Intn(4), I: []int64{int64(r.Intn(6))}})
+		}
 		// pool activity before the round
 		n := r.Pick([]int{2, 3, 4, 4, 3, 2, 1, 1}) // 0..7 submissions
 		for k := 0; k < n; k++ {
@@ -111,6 +115,7 @@ var scenario = ledger.Scenario{
 		r.Ops["resub"] = func(_ *ledger.Runner, st sim.Step) { g.opResub(st) }
 		r.Ops["flood"] = func(_ *ledger.Runner, st sim.Step) { g.opFlood(st) }
 		r.Ops["round"] = func(_ *ledger.Runner, st sim.Step) { g.opRound(st) }
+		r.Ops["ahead"] = func(_ *ledger.Runner, st sim.Step) { g.opAhead(st) }
 		r.Ops["fin"] = func(_ *ledger.Runner, st sim.Step) { g.opFin(st) }
 		return nil
 	},
